@@ -646,7 +646,8 @@ func c16gen(r *hlib.Rng, np, nh, n int, sched bool, cfg c16cfg) []c16op {
 				}
 			}
 			var nb []int
-			if r.Chance(55) {
+			tight := cfg.mutual == 1 && cfg.max >= 3 // room below the capacity, tight mutual limit
+			if r.Chance(55) || (tight && r.Chance(70)) {
 				// neighbours: mostly peers that hold a slot for this torrent, so the mutual limit is met
 				var held []int
 				for q := 0; q < np; q++ {
@@ -655,14 +656,14 @@ func c16gen(r *hlib.Rng, np, nh, n int, sched bool, cfg c16cfg) []c16op {
 					}
 				}
 				for i, m := 0, r.Range(1, 3); i < m; i++ {
-					if len(held) > 0 && r.Chance(70) {
+					if len(held) > 0 && (tight || r.Chance(70)) {
 						nb = append(nb, held[r.Intn(len(held))])
 					} else {
 						nb = append(nb, r.Intn(np))
 					}
 				}
 			}
-			if sched && r.Chance(35) { // the same through a real incoming handshake (neighbours are a set)
+			if sched && (r.Chance(35) || (tight && r.Chance(50))) { // the same through a real incoming handshake (neighbours are a set)
 				seen := map[int]bool{}
 				var set []int
 				for _, x := range nb {
